@@ -8,6 +8,14 @@
   `can_split`; model PM/Structure.lean, helpers Proofs/Structure.lean) never produce an answer that
   crosses the boundary of an isolating ancestor.  `S.isolating n` is the `isolating` flag of the
   type of `n`; ancestors, `start`/`end_` windows, `before`/`after` are those of `RPos` (C09).
+
+  Third part (the editor-level flows): a selection inside an isolating node, the library's own
+  `block_range` of it (`blockRange_inside_ancestor` / `_isolating`; node-level case
+  `blockRange_node_level_is_node` / `blockRange_collapsed_is_node`), then `lift_target` + `lift`
+  (`lift_of_selection_inside`), `wrap` (`wrap_of_selection_inside`), `can_split` + `split`
+  (`split_of_position_inside`): the step lies inside the node, everything outside is unchanged and the node
+  stays closed (`around_keeps_node_closed`); `set_node_markup` / `set_block_type` addressed at nodes inside
+  (`setNodeMarkup_inside`, `setBlockType_inside_partial`).  Helpers: Proofs/IsoFlows.lean.
 -/
 import PM.Monitor
 import PM.Structure
@@ -1172,5 +1180,9 @@ example : splitStep isoDoc2 5 2 = .ok (.replace 5 5
 example : findWrappingRange isoSchema isoDoc 3 5 2 1 = some (some [1]) := by decide
 example : wrapStep isoSchema isoDoc 3 5 2 [(1, [])] =
     .ok (.replaceAround 2 5 2 5 ⟨[.elem 1 [] [] []], 0, 0⟩ 1 true) := by rfl
+/-- the hypotheses of `setNodeMarkup_inside` on `isoDoc` (the isolating node occupies `[1, 6)`): the node at
+    position 2 is the paragraph, `1 < 2` and `2 + 3 < 6` -/
+example : isoDoc.nodeAt 2 = .ok (some (p [97])) ∧ (p [97]).size = 3 := by
+  simp [Node.nodeAt, nodeAtKids, isoDoc, p, Node.kids, Node.size, fsize]
 
 end PM.C18
